@@ -46,7 +46,7 @@ struct NoJsonResolver;
 impl Resolver<identity_core::common::StringOrUrl, Vec<u8>> for NoResolver { async fn resolve(&self, input: &identity_core::common::StringOrUrl) -> Result<Vec<u8>, resolver::Error> { Err(resolver::Error::NotFound(input.to_string())) } }
 
 const DOC: &str = r#"{"id":"did:example:issuer","verificationMethod":[{"id":"did:example:issuer#k","controller":"did:example:issuer","type":"JsonWebKey","publicKeyJwk":{"kty":"OKP","crv":"Ed25519","x":"11qYAYKxCrfVS_7TyWQHOg7hcvPapiMlrwIaaPcHURo"}},{"id":"did:example:issuer#p","controller":"did:example:issuer","type":"JsonWebKey","publicKeyJwk":{"kty":"EC","crv":"P-256","x":"MKBCTNIcKUSDii11ySs3526iDZ8AiTo7Tu6KPAqv7D4","y":"4Etl6SRW2YiLUrN5vfvVHuhp7x8PxltmWWlbbM4IFyM"}}],"authentication":["did:example:issuer#k"],"service":[{"id":"did:example:issuer#rev","type":"RevocationBitmap2022","serviceEndpoint":"data:application/octet-stream;base64,eJyzMmAAAwADKABr"}]}"#;
-pub const ENTRIES: usize = 42;
+pub const ENTRIES: usize = 43;
 fn s(bytes: &[u8]) -> String { String::from_utf8_lossy(bytes).to_string() }
 fn sink<T: std::fmt::Debug>(x: T) { let _ = format!("{:?}", x); }
 
@@ -116,7 +116,29 @@ fn run(e: i64, bytes: &[u8], extra: &[i64]) -> Vec<i64> {
   }
   vec![0]
 }
+/// consuming conversions of accepted values, run in a child process (entry 42): 0 IotaDID, 1 CoreDID, 2 DIDJwk, 3 DIDUrl
+pub fn abort_probe(probe: i64, bytes: &[u8]) {
+  let t = s(bytes);
+  match probe {
+    0 => { if let Ok(d) = IotaDID::parse(&t) { sink(String::from(d.clone())); sink(d.clone().into_string()); sink(CoreDID::from(d.clone()).into_string()); sink(d.into_url().to_string()); } }
+    1 => { if let Ok(d) = CoreDID::parse(&t) { sink(String::from(d.clone())); sink(d.clone().into_string()); sink(d.into_url().to_string()); } }
+    2 => { if let Ok(d) = DIDJwk::parse(&t) { sink(String::from(d.clone())); sink(d.clone().into_string()); sink(CoreDID::from(d).into_string()); } }
+    _ => { if let Ok(u) = DIDUrl::parse(&t) { sink(String::from(u.clone())); sink(Url::from(u.clone()).to_string()); sink(u.did().clone().into_string()); } }
+  }
+}
 pub fn exec(case: &[i64]) -> Outcome {
+  if case[0] == 42 {
+    // a conversion that consumes an accepted value must return: run it in a child process and look at how that process ended
+    let mut v = &case[1..]; let bytes = take_bytes(&mut v).unwrap_or_default(); let probe = v.first().copied().unwrap_or(0);
+    let hex: String = bytes.iter().map(|b| format!("{:02x}", b)).collect();
+    let mut child = match std::process::Command::new(std::env::current_exe().unwrap()).args(["c05", "abortprobe", &probe.to_string(), &hex]).stdout(std::process::Stdio::null()).stderr(std::process::Stdio::null()).spawn() { Ok(c) => c, Err(_) => return Outcome::new(vec![-7]).class("entry-42").trivial() };
+    // 0 returned, -778 died (stack overflow / abort / panic), -779 did not return within 5 s (unbounded recursion compiled into a loop)
+    let mut code = -779; let t0 = std::time::Instant::now();
+    while t0.elapsed() < std::time::Duration::from_secs(5) { match child.try_wait() { Ok(Some(st)) => { code = if st.success() { 0 } else { -778 }; break; } Ok(None) => std::thread::sleep(std::time::Duration::from_millis(5)), Err(_) => break } }
+    if code == -779 { let _ = child.kill(); let _ = child.wait(); }
+    let o = Outcome::new(vec![code]).class("entry-42");
+    return if code == 0 { o } else { o.fail("a conversion that consumes an accepted value does not return: the process dies (stack overflow / abort, not catchable) or recurses without end") };
+  }
   let e = case[0]; let mut v = &case[1..]; let bytes = take_bytes(&mut v).unwrap_or_default();
   let obs = run(e, &bytes, v);
   Outcome::new(obs).class(&format!("entry-{e:02}"))
@@ -197,6 +219,10 @@ pub fn gen(rng: &mut Rng, thorough: bool, sink: &mut Sink) {
     (40, vec![b"https://foo.example.com/a?b#c".to_vec(), b"did:example:1".to_vec(), b"VerificationMethod".to_vec(), b"authentication".to_vec(), b"EdDSA".to_vec(), b"revocation".to_vec(), b"JsonWebKey".to_vec(), b"".to_vec(), b"//".to_vec(), b"a b".to_vec()]),
     (15, vec![packed.clone(), b"DID\x01\x00\x02\x00{}".to_vec()]),
   ];
+  // consuming conversions in a child process (abort / stack overflow cannot be caught in-process)
+  for (probe, inputs) in [(0i64, vec!["did:iota:0x1111111111111111111111111111111111111111111111111111111111111111", "did:iota:smr:0x1111111111111111111111111111111111111111111111111111111111111111", "did:iota:x"]),
+    (1, vec!["did:example:abc", "did:a:b:c", "did:a"]), (2, vec!["did:jwk:eyJrdHkiOiJPS1AiLCJjcnYiOiJFZDI1NTE5IiwieCI6IjExcVlBWUt4Q3JmVlNfN1R5V1FIT2c3aGN2UGFwaU1scndJYWFQY0hVUm8ifQ", "did:jwk:e30"]),
+    (3, vec!["did:example:abc/path?query=1#frag", "did:a:b#f"])] { for i in inputs { emit(42, i.as_bytes(), &[probe], "consuming-conversions", sink); } }
   // token-level enumeration of DID-shaped strings: every sequence of up to `tdepth` tokens after "did:" (CoreDID, DIDUrl, IotaDID entry points)
   let tag64 = "0x1111111111111111111111111111111111111111111111111111111111111111";
   let toks: Vec<&str> = vec![":", "iota", "smr", "0x", tag64, "a", "/", "?", "#", "%41", " ", "IOTA", "x=1"];
